@@ -173,7 +173,9 @@ def build_logic(case: "gen.Case", rec: Rec, gtable: Dict[str, Any],
         n_y = (yields or {}).get(name, 0)
         if n_y:
             async def _amarker(interp, ctx, event, action_def, _n=name, _k=n_y):
-                for _ in range(_k):
+                if _k < 0:      # negative: a slow action taking -k virtual milliseconds
+                    await asyncio.sleep(-_k / 1000.0)
+                for _ in range(max(_k, 0)):
                     await asyncio.sleep(0)
                 log.append(("act", _n, event, config_of(interp), threading.get_ident()))
             return _amarker
@@ -314,6 +316,27 @@ async def drain(interp, max_yields: int = 20000, settle: int = 4) -> bool:
         else:
             calm = 0
         await asyncio.sleep(0)
+    return False
+
+
+async def drain_timed(interp, step: float = 0.001, max_steps: int = 200000, settle: int = 3) -> bool:
+    """Like drain(), but lets (virtual) time pass between checks, so macrosteps that contain
+    sleeping actions, timers and service completions can finish."""
+    q = getattr(interp, "_event_queue", None)
+    calm = 0
+    for _ in range(max_steps):
+        if interp.status != "running" and not getattr(interp, "_processing", False):
+            return True
+        unfinished = getattr(q, "_unfinished_tasks", None)
+        if unfinished is None:
+            unfinished = 0 if q.empty() else 1
+        if unfinished == 0 and not getattr(interp, "_processing", False):
+            calm += 1
+            if calm > settle:
+                return True
+        else:
+            calm = 0
+        await asyncio.sleep(step)
     return False
 
 
